@@ -224,6 +224,36 @@ REPLY_CLASS = {5: "SSH_AGENT_FAILURE", 6: "SSH_AGENT_SUCCESS", 12: "IDENTITIES_A
                30: "EXTENSION_RESPONSE", 0: "type 0", 255: "type 255"}
 
 
+def rand_signature(rng):
+    """(shape, bytes): signature blobs are opaque to AgentKey - whatever the agent put in the string comes back."""
+    shape = rng.choice(["random bytes", "random bytes", "well-formed (string algo, string sig)", "starts with invalid UTF-8",
+                        "inner length larger than the blob", "empty", "one byte", "all zero bytes", "all 0xff bytes",
+                        "text that is not a length-prefixed string"])
+    n = rng.choice([1, 64, 83, 256, 533, rng.randint(2, 700)])
+    if shape == "random bytes":
+        b = rng.randbytes(n)
+    elif shape.startswith("well-formed"):
+        b = s(rng.choice(["rsa-sha2-512", "ssh-ed25519", "ecdsa-sha2-nistp256"])) + s(rng.randbytes(n))
+    elif shape == "starts with invalid UTF-8":
+        b = struct.pack(">I", 4) + b"\xff\xfe\xfd\xfc" + s(rng.randbytes(n))
+    elif shape == "inner length larger than the blob":
+        b = struct.pack(">I", n + rng.randint(1, 1 << 30)) + rng.randbytes(n)
+    elif shape == "empty":
+        b = b""
+    elif shape == "one byte":
+        b = rng.randbytes(1)
+    elif shape == "all zero bytes":
+        b = bytes(n)
+    elif shape == "all 0xff bytes":
+        b = b"\xff" * n
+    else:
+        b = ("signature-%d" % n).encode()
+    return shape, b
+
+
+LAST_OUTCOME = {}  # id(key object) -> "refused" | "signed": what the previous request on that very key object ended with
+
+
 def one_sign(ctx, rng, conn, key, entry, name, data, rtype, sig, frag, use_kw):
     kind, listed, acceptable = entry
     conn.frag = frag
@@ -245,8 +275,15 @@ def one_sign(ctx, rng, conn, key, entry, name, data, rtype, sig, frag, use_kw):
     except Exception as e:
         raised = e
     new = conn.frames[nframes:]
+    prev = LAST_OUTCOME.get(id(key))
+    LAST_OUTCOME[id(key)] = "signed" if rtype == 14 else "refused"
+    if prev == "refused":
+        ctx.count("sign_calls_on_a_key_object_that_was_refused_just_before")
+        if len(new) == 1:
+            ctx.count("sign_requests_sent_by_a_key_object_that_was_refused_just_before")
     if len(new) != 1 or conn.inbuf:
-        ctx.violation("sign_ssh_data did not send exactly one well-framed request",
+        ctx.violation("sign_ssh_data did not send exactly one well-framed request%s"
+                      % (" (the key object was refused on its previous request)" if prev == "refused" and not new else ""),
                       "%d frames, %d stray bytes" % (len(new), len(conn.inbuf)), wit)
         conn.inbuf = b""
         return
@@ -493,7 +530,8 @@ def run(ctx):
                 if not ctx.mine(idx):
                     continue
                 data = rdata(rng)
-                sig = bytes(rng.getrandbits(8) for _ in range(rng.choice([0, 1, 64, 83, 256, 533])))
+                shape, sig = rand_signature(rng)
+                ctx.count("signature_blobs_" + shape.split(" (")[0].replace(" ", "_").replace("-", "_"))
                 ctx.case(("enum", ki, name, rtype, data),
                          sample=dict(kind="enumerated", key=entry[0], algorithm=name, reply_type=rtype,
                                      data_len=len(data)) if idx in (5, 6, 301) else None)
@@ -520,7 +558,9 @@ def run(ctx):
         if rtype == 14 and rng.random() < 0.0:
             pass
         data = rdata(rng)
-        sig = bytes(rng.getrandbits(8) for _ in range(rng.choice([0, 1, 64, 83, 256, 533, rng.randint(0, 700)])))
+        shape, sig = rand_signature(rng)
+        if rtype == 14:
+            ctx.count("signature_blobs_" + shape.split(" (")[0].replace(" ", "_").replace("-", "_"))
         frag = rng.choice(["all", "all", "byte", "random"])
         ctx.case(("rand", ki, name, rtype, data, sig, frag),
                  sample=dict(kind="random", key=pool[ki][0], algorithm=name, reply_type=rtype, data_len=len(data),
@@ -529,6 +569,11 @@ def run(ctx):
     midreply_sign(ctx, rng, pool)
     midreply_identities(ctx, rng, pool)
     session_sample(ctx, rng)
+    ctx.require("sign_requests_sent_by_a_key_object_that_was_refused_just_before", 2000)
+    ctx.require("signature_blobs_starts_with_invalid_UTF_8", 800)
+    ctx.require("signature_blobs_inner_length_larger_than_the_blob", 800)
+    ctx.require("signature_blobs_well_formed", 800)
+    ctx.require("signature_blobs_empty", 800)
     ctx.require("midreply_sign_cuts_judged", 2000)
     ctx.require("midreply_identities_cuts_judged", 300)
     ctx.require("midreply_cuts_inside_the_4_byte_length", 120)
